@@ -65,6 +65,10 @@ pub trait Lay: Copy + 'static {
         vec![]
     }
     fn compose_forms(&self, o: &Self) -> Forms<Self>;
+    /// affine types only: products with a general (projective) square matrix of the next size, both orders, as column arrays
+    fn projective_forms(&self, _full: &[f64]) -> Forms<Vec<f64>> {
+        vec![]
+    }
     /// the same entries with arbitrary content in the padding lanes of 16-byte columns (Mat3A, Affine3A); None for packed types
     fn repad(&self, _junk: &[u64]) -> Option<Self> {
         None
@@ -171,7 +175,8 @@ macro_rules! lay_mat {
             fn compose_forms(&self, o: &Self) -> Forms<Self> {
                 let mut x = *self;
                 x *= *o;
-                vec![("A*B", *self * *o), ("A*=B", x)]
+                let l = [*self, *o];
+                vec![("A*B", *self * *o), ("A*=B", x), ("Product by value", l.iter().copied().product()), ("Product by ref", l.iter().product())]
             }
             fn repad(&self, junk: &[u64]) -> Option<Self> {
                 <$M as Repad>::repad_impl(self, junk)
@@ -349,6 +354,9 @@ macro_rules! lay_affine {
                 f.extend(<$A as Mixed>::mixed(self, o));
                 f
             }
+            fn projective_forms(&self, full: &[f64]) -> Forms<Vec<f64>> {
+                <$A as Mixed>::projective(self, full)
+            }
             fn repad(&self, junk: &[u64]) -> Option<Self> {
                 <$A as Repad>::repad_impl(self, junk)
             }
@@ -358,6 +366,23 @@ macro_rules! lay_affine {
 /// the mixed matrix / affine product operators, converted back to the affine type (exact re-packaging)
 trait Mixed: Sized {
     fn mixed(&self, o: &Self) -> Forms<Self>;
+    /// A * M and M * A for a general square matrix M one size up (column-major `full`)
+    fn projective(&self, full: &[f64]) -> Forms<Vec<f64>>;
+}
+fn arr32<const N: usize>(a: &[f64]) -> [f32; N] {
+    let mut x = [0.0f32; N];
+    for i in 0..N {
+        x[i] = a[i] as f32;
+    }
+    x
+}
+fn arr64<const N: usize>(a: &[f64]) -> [f64; N] {
+    let mut x = [0.0f64; N];
+    x.copy_from_slice(&a[..N]);
+    x
+}
+fn w64(a: &[f32]) -> Vec<f64> {
+    a.iter().map(|x| *x as f64).collect()
 }
 impl Mixed for Affine2 {
     fn mixed(&self, o: &Self) -> Forms<Self> {
@@ -368,20 +393,42 @@ impl Mixed for Affine2 {
             ("A * Mat3A::from(B)", Affine2::from_mat3a(*self * Mat3A::from(*o))),
         ]
     }
+    fn projective(&self, full: &[f64]) -> Forms<Vec<f64>> {
+        let m = Mat3::from_cols_array(&arr32::<9>(full));
+        let ma = Mat3A::from_cols_array(&arr32::<9>(full));
+        vec![
+            ("A * Mat3", w64(&(*self * m).to_cols_array())),
+            ("Mat3 * A", w64(&(m * *self).to_cols_array())),
+            ("A * Mat3A", w64(&(*self * ma).to_cols_array())),
+            ("Mat3A * A", w64(&(ma * *self).to_cols_array())),
+        ]
+    }
 }
 impl Mixed for DAffine2 {
     fn mixed(&self, o: &Self) -> Forms<Self> {
         vec![("DMat3::from(A) * B", DAffine2::from_mat3(DMat3::from(*self) * *o)), ("A * DMat3::from(B)", DAffine2::from_mat3(*self * DMat3::from(*o)))]
+    }
+    fn projective(&self, full: &[f64]) -> Forms<Vec<f64>> {
+        let m = DMat3::from_cols_array(&arr64::<9>(full));
+        vec![("A * DMat3", (*self * m).to_cols_array().to_vec()), ("DMat3 * A", (m * *self).to_cols_array().to_vec())]
     }
 }
 impl Mixed for Affine3A {
     fn mixed(&self, o: &Self) -> Forms<Self> {
         vec![("Mat4::from(A) * B", Affine3A::from_mat4(Mat4::from(*self) * *o)), ("A * Mat4::from(B)", Affine3A::from_mat4(*self * Mat4::from(*o)))]
     }
+    fn projective(&self, full: &[f64]) -> Forms<Vec<f64>> {
+        let m = Mat4::from_cols_array(&arr32::<16>(full));
+        vec![("A * Mat4", w64(&(*self * m).to_cols_array())), ("Mat4 * A", w64(&(m * *self).to_cols_array()))]
+    }
 }
 impl Mixed for DAffine3 {
     fn mixed(&self, o: &Self) -> Forms<Self> {
         vec![("DMat4::from(A) * B", DAffine3::from_mat4(DMat4::from(*self) * *o)), ("A * DMat4::from(B)", DAffine3::from_mat4(*self * DMat4::from(*o)))]
+    }
+    fn projective(&self, full: &[f64]) -> Forms<Vec<f64>> {
+        let m = DMat4::from_cols_array(&arr64::<16>(full));
+        vec![("A * DMat4", (*self * m).to_cols_array().to_vec()), ("DMat4 * A", (m * *self).to_cols_array().to_vec())]
     }
 }
 impl Repad for Affine2 {}
@@ -686,6 +733,47 @@ fn check_product_int<L: Lay>(w: &[u64], t: &mut Tally) -> Result<(), Fail> {
         exact("compose", &format!("{form} entries"), &mab.to_arr(), &ab)?;
         for (f2, g) in mab.act_forms(&vt) {
             exact("compose", &format!("({form})*v via {f2}"), &g, &abv)?;
+        }
+    }
+    // an affine map times a general (projective) matrix one size up, and the reverse: the full matrix product
+    if aff {
+        let n1 = c_; // = R + 1
+        let emb = |x: &[i128], bottom: &[i128]| -> Vec<i128> {
+            let mut m = vec![0i128; n1 * n1];
+            for c in 0..n1 {
+                for r in 0..r_ {
+                    m[c * n1 + r] = x[c * r_ + r];
+                }
+                m[c * n1 + r_] = bottom[c];
+            }
+            m
+        };
+        let mut bottom_a = vec![0i128; n1];
+        bottom_a[r_] = 1;
+        // bottom row of the general matrix: taken from v and A so that it is rarely (0, .., 0, 1)
+        let bottom_m: Vec<i128> = (0..n1).map(|c| if c < r_ { vi[c] } else { ai[0] - vi[0] + 1 }).collect();
+        let af = emb(&ai, &bottom_a);
+        let mf = emb(&bi, &bottom_m);
+        t.class(if bottom_m[..r_].iter().any(|x| *x != 0) { "projective-rhs:bottom row not (0,..,0,w)" } else { "projective-rhs:affine-like" });
+        let mm = |x: &[i128], y: &[i128]| -> Vec<i128> {
+            let mut o = vec![0i128; n1 * n1];
+            for c in 0..n1 {
+                for r in 0..n1 {
+                    o[c * n1 + r] = (0..n1).map(|k| x[k * n1 + r] * y[c * n1 + k]).sum();
+                }
+            }
+            o
+        };
+        let a_m = mm(&af, &mf);
+        let m_a = mm(&mf, &af);
+        let mf64: Vec<f64> = mf.iter().map(|x| *x as f64).collect();
+        for (form, g) in ma.projective_forms(&mf64) {
+            let e = if form.starts_with("A *") { &a_m } else { &m_a };
+            for i in 0..n1 * n1 {
+                if !(g[i] == e[i] as f64) {
+                    return Err(fail::<L>("compose", form, format!("entry {i} (column-major) of {form}: got {:?} expected exactly {} (M(cols)={:?}, got {:?} expected {:?}); {}", g[i], e[i], mf, g, e, ctx())));
+                }
+            }
         }
     }
     Ok(())
